@@ -25,6 +25,7 @@ var noiseFields = []hf{
 	{"grpc-accept-encoding", "identity,deflate,gzip"}, {"content-encoding", "br"}, {"accept-encoding", "snappy"},
 	{"grpc-encoding-x", "gzip"}, {"x-grpc-encoding", "snappy"}, {"grpc-timeout", "1S"}, {"user-agent", "grpc-go/1.50"},
 	{"grpc-message-type", "application/grpc"}, {"x-content-type", "application/grpc"},
+	{"Grpc-Encoding", "snappy"}, {"grpc-encoding ", "gzip"}, {"grpc_encoding", "deflate"},
 }
 
 func (p hdrPlan) fields(r *core.Rand, dir string) []hf {
